@@ -344,6 +344,21 @@ pub fn simd_prefix_search_scalar(
     (left, right, start_eq_mask)
 }
 
+/// Verification hook: when set, `find_key_simd` takes the scalar narrowing path even if the
+/// CPU supports AVX2, so that both dispatch modes can be exercised on one machine.
+#[cfg(kahflane_turdb_verif)]
+static VERIF_FORCE_SCALAR: std::sync::atomic::AtomicBool = std::sync::atomic::AtomicBool::new(false);
+
+#[cfg(kahflane_turdb_verif)]
+pub fn verif_force_scalar(on: bool) {
+    VERIF_FORCE_SCALAR.store(on, std::sync::atomic::Ordering::SeqCst);
+}
+
+#[cfg(kahflane_turdb_verif)]
+pub fn verif_scalar_forced() -> bool {
+    VERIF_FORCE_SCALAR.load(std::sync::atomic::Ordering::SeqCst)
+}
+
 /// SIMD-accelerated key search in a leaf page
 ///
 /// Uses SIMD prefix comparison to narrow down the search range, then falls
@@ -358,6 +373,12 @@ pub fn find_key_simd(page_data: &[u8], key: &[u8], cell_count: usize) -> SearchR
     // Use SIMD to narrow down the search range
     #[cfg(target_arch = "x86_64")]
     let (mut left, mut right, _eq_mask) = {
+        #[cfg(kahflane_turdb_verif)]
+        macro_rules! is_x86_feature_detected {
+            ($f:tt) => {
+                (std::is_x86_feature_detected!($f) && !verif_scalar_forced())
+            };
+        }
         if is_x86_feature_detected!("avx2") {
             // SAFETY: We've checked for AVX2 support
             unsafe { simd_prefix_search_avx2(page_data, target_prefix, cell_count) }
